@@ -33,7 +33,17 @@ const (
 	oRefused = "refused-by-middleware"
 )
 
-var outcomes = []string{oSuccess, oTyped, oPlain, oPanic, oUnrouted, oCritical, oDiscover, oRefused}
+var outcomes = []string{oSuccess, oTyped, oPlain, oPanic, oUnrouted, oCritical, oDiscover, oRefused, oVendor}
+
+// oVendor: an item of a vendor operation (0x80000041) the application has a route for; its handler answers with an
+// UnknownPayload literal, which is how such a payload is written down when there is no type for it.
+const oVendor = "vendor-operation"
+
+type vendorHandler struct{}
+
+func (vendorHandler) HandleOperation(ctx context.Context, req kmip.OperationPayload) (kmip.OperationPayload, error) {
+	return &kmip.UnknownPayload{Fields: ttlv.Struct{{Tag: 0x540001, Value: int32(7)}}}, nil
+}
 
 type c09Case struct {
 	Outcomes []string `json:"item_outcomes"`
@@ -86,6 +96,7 @@ func newExecutor(log *callLog, panicVal string, plainErr ...string) *kmipserver.
 		}
 		return next(ctx, bi)
 	})
+	exec.Route(kmip.Operation(0x80000041), vendorHandler{})
 	exec.Route(kmip.OperationActivate, kmipserver.HandleFunc(func(ctx context.Context, req *payloads.ActivateRequestPayload) (*payloads.ActivateResponsePayload, error) {
 		// identifier = "<index>:<outcome>"
 		parts := strings.SplitN(req.UniqueIdentifier, ":", 2)
@@ -136,6 +147,9 @@ func buildRequest(c c09Case) *kmip.RequestMessage {
 		case oDiscover:
 			it.Operation = kmip.OperationDiscoverVersions
 			it.RequestPayload = &payloads.DiscoverVersionsRequestPayload{}
+		case oVendor:
+			it.Operation = kmip.Operation(0x80000041)
+			it.RequestPayload = kmip.NewUnknownPayload(it.Operation, ttlv.Value{Tag: 0x540002, Value: int32(i)})
 		}
 		if c.IDs == "all" || (c.IDs == "some" && i%2 == 0) {
 			it.UniqueBatchItemID = []byte{0xB0, byte(i)}
@@ -316,7 +330,7 @@ func c09Run(c c09Case) (sig string, err error) {
 		if invoked {
 			wantCalls = append(wantCalls, i)
 		}
-		ok := o == oSuccess || (o == oDiscover && (c.CustomDiscover == "" || c.CustomDiscover == "answers"))
+		ok := o == oSuccess || o == oVendor || (o == oDiscover && (c.CustomDiscover == "" || c.CustomDiscover == "answers"))
 		if ok != (it.ResultStatus == kmip.ResultStatusSuccess) {
 			return "wrong-status:" + o, fmt.Errorf("item %d with outcome %s has status %v", i, o, it.ResultStatus)
 		}
@@ -327,6 +341,10 @@ func c09Run(c c09Case) (sig string, err error) {
 			// (the executor answers with a value of the request payload's Go type, which has the same wire form: not this property's business)
 			if it.ResponsePayload == nil || it.ResponsePayload.Operation() != kmip.OperationDiscoverVersions {
 				return "wrong-payload", fmt.Errorf("item %d (Discover Versions) carries payload %#v", i, it.ResponsePayload)
+			}
+		} else if o == oVendor {
+			if _, isU := it.ResponsePayload.(*kmip.UnknownPayload); !isU {
+				return "wrong-payload", fmt.Errorf("item %d (vendor operation) carries payload %#v", i, it.ResponsePayload)
 			}
 		} else if ok {
 			pl, isAct := it.ResponsePayload.(*payloads.ActivateResponsePayload)
